@@ -574,11 +574,13 @@ where
         let (dropped_tx, mut dropped_rx) = oneshot::channel();
 
         // Build initial state.
+        let initial = self.take_initial().unwrap_or_default();
+        let error = (initial.len() > max_size).then_some(RecvError::MaxSizeExceeded(max_size));
         let inner = Arc::new(RwLock::new(Some(MirroredHashSetInner {
-            hs: self.take_initial().unwrap_or_default(),
+            hs: initial,
             complete: self.is_complete(),
             done: self.is_done(),
-            error: None,
+            error,
             max_size,
         })));
         let inner_task = inner.clone();
